@@ -129,7 +129,7 @@ func verifC01wBandLen(rows, width, ld, slack int) int {
 func VerifC01_Blas32Vector() {
 	impl := gonum.Implementation{}
 	r := verifChoose("routine", 0, 9)
-	n := verifChoose("n", 0, verifParam("wn", 2)+1)
+	n := verifChoose("n", 0, verifParam("wvn", 3))
 	slack := verifChoose("slack", 0, 1)
 	if r == 6 && n > 1 {
 		// Nrm2: n <= 1. The scaled sum of squares is executed twice on symbolic data; deciding the
